@@ -560,9 +560,13 @@ func (e *vfEnv) step(i int, op *vfWOp) *vlib.Failure {
 		}
 		expectOK := ValidatePassphrase([]byte(pass)) && pass != m.PubPass && (len(m.Order) == 0 || pass == m.PrivPass) && (len(seed) == 0 || len(seed) == 32)
 		dup := false
-		if id, ok := m.SeedID[hex.EncodeToString(seed)]; ok && len(seed) == 32 {
-			if _, present := m.Ks[id]; present {
-				dup = true
+		// the id a seed leads to is the same in every wallet; a keystore may have arrived here by import from the
+		// wallet in which the seed was first used
+		for _, ow := range e.w {
+			if id, ok := ow.m.SeedID[hex.EncodeToString(seed)]; ok && len(seed) == 32 {
+				if _, present := m.Ks[id]; present {
+					dup = true
+				}
 			}
 		}
 		id, err := w.kmc.NewKeystore([]byte(pass), seed, op.S, config.ChainParams, fastScryptVf)
